@@ -722,6 +722,8 @@ def run(repo, rep):
     rep.floor('R-THREAD', 10, 'role-parameter call sites of the six conversion methods')
     delegation_rules(repo, rep)
     dispatch_rules(repo, rep)
+    # the chain tm -> geo -> tm: the longitude CoordTM.geo() holds must be one CoordGeo.tm() (geo2grid) accepts
+    common.longitude_range_rule(repo, rep)
     # definite assignment in the dispatcher (the outer type chain is exhaustive by the constructor's type check)
     f = repo.func('geodepy.coord', 'CoordGeo.notation')
     allowed = exhaustive_type_chain(repo)
